@@ -155,7 +155,7 @@ def run_runner_case(case: dict[str, Any]) -> dict[str, Any]:
         with warnings.catch_warnings():
             warnings.simplefilter("ignore")
             run_application(root_cls, {}, backend=backend, backend_options=vclock.backend_options(backend),
-                            logging=None, start_timeout=5 * TICK)
+                            logging=None, start_timeout=0 if ending.get("t0") else 5 * TICK)
         outcome = {"k": "returned"}
     except SystemExit as e:
         outcome = {"k": "systemExit", "n": int(e.code) if isinstance(e.code, int) and not isinstance(e.code, bool) else repr(e.code)}
